@@ -47,9 +47,9 @@ HIST_OPS = ['apply'] * 4 + ['remove'] * 2 + ['slice', 'slice', 'clip', 'clip', '
                                            'ljust', 'rjust', 'center', 'zfill', 'assign', 'replace', 'replace', 'strip', 'rstrip', 'lstrip',
                                            'rmprefix', 'rmsuffix', 'case', 'expandtabs', 'split', 'rsplit', 'splitlines', 'partition',
                                            'rpartition', 'copy', 'copy', 'fmtmatch', 'unfmtmatch', 'conv', 'conv', 'index', 'simplify', 'clear',
-                                           'q_format', 'q_format', 'q_format', 'q_misc']
+                                           'q_format', 'q_format', 'q_format', 'q_misc', 'setansi', 'applymatch', 'applymatch']
 
-INPLACE_ONLY = ('apply', 'remove', 'simplify', 'clear', 'assign', 'fmtmatch', 'unfmtmatch', 'iadd')
+INPLACE_ONLY = ('apply', 'remove', 'simplify', 'clear', 'assign', 'fmtmatch', 'unfmtmatch', 'iadd', 'setansi', 'applymatch')
 
 
 def is_inplace(v, op):
